@@ -102,9 +102,12 @@ func (h *HelloPingHandler) inOrder(f frame.Frame) bool {
 func (h *HelloPingHandler) Clean(w *mgr.WorkerCtx) error {
 	now := time.Now()
 
+	// Keep the entries longer than a session lives without activity (one hour):
+	// as long as the session is there, its sequence check rejects older pings -
+	// except exact duplicates of hop pings, which only this map stops.
 	h.sendLock.Lock()
 	for remote, seqTime := range h.handled {
-		if now.Sub(seqTime) > 10*time.Minute {
+		if now.Sub(seqTime) > 2*time.Hour {
 			delete(h.handled, remote)
 		}
 	}
